@@ -526,7 +526,7 @@ func (p *Program) eventLoop(model Model, cmds chan Cmd) (Model, error) {
 // Run initializes the program and runs its event loops, blocking until it gets
 // terminated by either [Program.Quit], [Program.Kill], or its signal handler.
 // Returns the final model.
-func (p *Program) Run() (Model, error) {
+func (p *Program) Run() (returnModel Model, returnErr error) {
 	p.handlers = channelHandlers{}
 	cmds := make(chan Cmd)
 	p.errs = make(chan error)
@@ -579,7 +579,12 @@ func (p *Program) Run() (Model, error) {
 
 	// Recover from panics.
 	if !p.startupOptions.has(withoutCatchPanics) {
-		defer p.recoverFromPanic()
+		defer func() {
+			if r := recover(); r != nil {
+				returnErr = fmt.Errorf("%w: recovered from panic: %v", ErrProgramKilled, r)
+				p.handlePanic(r)
+			}
+		}()
 	}
 
 	// If no renderer is set use the standard one.
@@ -764,10 +769,15 @@ func (p *Program) shutdown(kill bool) {
 // the terminal to a usable state.
 func (p *Program) recoverFromPanic() {
 	if r := recover(); r != nil {
-		p.shutdown(true)
-		fmt.Printf("Caught panic:\n\n%s\n\nRestoring terminal...\n\n", r)
-		debug.PrintStack()
+		p.handlePanic(r)
 	}
+}
+
+// handlePanic restores the terminal and reports a recovered panic value.
+func (p *Program) handlePanic(r interface{}) {
+	p.shutdown(true)
+	fmt.Printf("Caught panic:\n\n%s\n\nRestoring terminal...\n\n", r)
+	debug.PrintStack()
 }
 
 // ReleaseTerminal restores the original terminal state and cancels the input
